@@ -52,4 +52,15 @@ TEXT = {
         "note": NOTE_SYNC + " zlib is trusted.",
         "technique": "Lean 4 proof (snapshot invariant of the sync machine, decision table) + correspondence check",
     },
+    "C03": {
+        "level": "Lean theorems for all base states, ids, strings and timestamps (earlier, later, equal): transform is symmetric; rebasing is "
+                 "symmetric (rebase_symm) and hence two replicas end in the same state whichever synchronizes first "
+                 "(C03_order_independent₂); one theorem per documented rule (later (timestamp,value) wins, delete beats update, different "
+                 "properties / tasks both kept, concurrent creates merge, causal override); an operation is dropped only against a named "
+                 "witness under a documented rule (C03_dropped_only_by_rule). Three-replica order independence is NOT yet a theorem "
+                 "(partial): it is covered by running every sync order of generated three-replica conflict groups on the implementation.",
+        "design_ref": "DESIGN.md §5 C03",
+        "note": NOTE_SYNC,
+        "technique": "Lean 4 proof (algebraic laws of transform/rebase, decision table) + all-sync-orders correspondence check",
+    },
 }
